@@ -1,42 +1,98 @@
 import CkbVerif.Lemmas.Reorg
 
-/-! Helper lemmas for `Props/C12.lean`, part 2: `readd_detached_tx` (`Reorg.readd`). -/
+/-! Helper lemmas for `Props/C12.lean`, part 2: the chain side (`newLive`) and `readd_detached_tx`
+    (`Reorg.readd`). -/
 namespace CkbVerif.Reorg
-open CkbVerif.Pool (calcRelation dedup insertNew)
 
-/-- same transaction at the same stage (the link parents may differ) -/
-def SameCore (e e' : PEnt) : Prop :=
-  e'.id = e.id ∧ e'.status = e.status ∧ e'.spent = e.spent ∧ e'.deps = e.deps ∧ e'.hdeps = e.hdeps ∧ e'.outs = e.outs
+/-! ### the chain side -/
 
-theorem SameCore.rfl' (e : PEnt) : SameCore e e := ⟨rfl, rfl, rfl, rfl, rfl, rfl⟩
+theorem mem_foldl_attach_of_mem (l : List CTx) (L : List Nat) {o : Nat} (ho : o ∈ L)
+    (hs : ∀ y ∈ l, o ∉ y.spent) : o ∈ l.foldl attachTx L := by
+  induction l generalizing L with
+  | nil => exact ho
+  | cons y ys ih =>
+    apply ih
+    · unfold attachTx
+      exact List.mem_append.mpr (Or.inl (List.mem_filter.mpr ⟨ho, by simpa using hs y (List.mem_cons_self ..)⟩))
+    · intro y' hy'; exact hs y' (List.mem_cons_of_mem _ hy')
 
-theorem SameCore.trans {a b c : PEnt} (h1 : SameCore a b) (h2 : SameCore b c) : SameCore a c :=
-  ⟨h2.1.trans h1.1, h2.2.1.trans h1.2.1, h2.2.2.1.trans h1.2.2.1, h2.2.2.2.1.trans h1.2.2.2.1,
-    h2.2.2.2.2.1.trans h1.2.2.2.2.1, h2.2.2.2.2.2.trans h1.2.2.2.2.2⟩
+theorem mem_foldl_attach_of_outs (l : List CTx) (L : List Nat) {o : Nat} {y : CTx} (hy : y ∈ l) (ho : o ∈ y.outs)
+    (hs : ∀ y ∈ l, o ∉ y.spent) : o ∈ l.foldl attachTx L := by
+  induction l generalizing L with
+  | nil => simp at hy
+  | cons x xs ih =>
+    rcases List.mem_cons.mp hy with rfl | h
+    · refine mem_foldl_attach_of_mem xs _ ?_ ?_
+      · unfold attachTx; exact List.mem_append.mpr (Or.inr ho)
+      · intro y' hy'; exact hs y' (List.mem_cons_of_mem _ hy')
+    · exact ih _ h (fun y' hy' => hs y' (List.mem_cons_of_mem _ hy'))
 
-/-- the entry is the detached transaction `t` at the stage of the new window -/
-def FromTx (a : Args) (t : DTx) (e : PEnt) : Prop :=
-  e.id = t.id ∧ e.status = windowStage a t.id ∧ e.spent = t.spent ∧ e.deps = t.deps ∧ e.hdeps = t.hdeps ∧ e.outs = t.outs
+theorem mem_foldl_detach_of_mem (l : List CTx) (L : List Nat) {o : Nat} (ho : o ∈ L)
+    (hs : ∀ d ∈ l, o ∉ d.outs) : o ∈ l.foldl detachTx L := by
+  induction l generalizing L with
+  | nil => exact ho
+  | cons y ys ih =>
+    apply ih
+    · unfold detachTx
+      exact List.mem_append.mpr (Or.inl (List.mem_filter.mpr ⟨ho, by simpa using hs y (List.mem_cons_self ..)⟩))
+    · intro y' hy'; exact hs y' (List.mem_cons_of_mem _ hy')
+
+/-- a cell that was live stays live unless a detached transaction created it or an attached one consumed it -/
+theorem live_stays {a : Args} {o : Nat} (ho : o ∈ a.live) (hd : ∀ d ∈ a.detached, o ∉ d.outs)
+    (hs : ∀ y ∈ a.attached, o ∉ y.spent) : o ∈ newLive a := by
+  unfold newLive
+  apply mem_foldl_attach_of_mem _ _ _ hs
+  apply mem_foldl_detach_of_mem _ _ ho
+  intro d hd'; exact hd d (List.mem_reverse.mp hd')
+
+/-- what an attached transaction created is live at the new tip unless an attached one consumed it -/
+theorem attached_outs_live {a : Args} {o : Nat} {y : CTx} (hy : y ∈ a.attached) (ho : o ∈ y.outs)
+    (hs : ∀ y ∈ a.attached, o ∉ y.spent) : o ∈ newLive a := by
+  unfold newLive
+  exact mem_foldl_attach_of_outs _ _ hy ho hs
+
+/-- accounted for by the chain change: live at the new tip, created on the abandoned branch, or
+    consumed on the new branch -/
+def Excused (a : Args) (o : Nat) : Prop :=
+  o ∈ newLive a ∨ (∃ d ∈ a.detached, o ∈ d.outs) ∨ (∃ y ∈ a.attached, o ∈ y.spent)
+
+theorem excused_of_live {a : Args} {o : Nat} (ho : o ∈ a.live) : Excused a o := by
+  by_cases hd : ∃ d ∈ a.detached, o ∈ d.outs
+  · exact Or.inr (Or.inl hd)
+  · by_cases hs : ∃ y ∈ a.attached, o ∈ y.spent
+    · exact Or.inr (Or.inr hs)
+    · exact Or.inl (live_stays ho (fun d hd' h => hd ⟨d, hd', h⟩) (fun y hy h => hs ⟨y, hy, h⟩))
+
+theorem excused_of_attached_out {a : Args} {o : Nat} {y : CTx} (hy : y ∈ a.attached) (ho : o ∈ y.outs) : Excused a o := by
+  by_cases hs : ∃ y ∈ a.attached, o ∈ y.spent
+  · exact Or.inr (Or.inr hs)
+  · exact Or.inl (attached_outs_live hy ho (fun y hy h => hs ⟨y, hy, h⟩))
+
+theorem mem_retain {a : Args} {t : CTx} : t ∈ retain a ↔ t ∈ a.detached ∧ ∀ y ∈ a.attached, y.id ≠ t.id := by
+  unfold retain
+  simp only [List.mem_filter, Bool.not_eq_true', List.any_eq_false, beq_iff_eq]
+
+/-! ### `readd_detached_tx` -/
 
 /-- what `readd_detached_tx` requires of a transaction at its turn -/
-def Admissible (a : Args) (r : RArgs) (q : Pool) (t : DTx) : Prop :=
-  resolves q a r t = true ∧ t.ok = true ∧ hasId q t.id = false ∧
+def Admissible (a : Args) (live : List Nat) (q : Pool) (t : CTx) : Prop :=
+  resolves q a live t = true ∧ t.ok = true ∧ hasId q t.id = false ∧
     (ancestorsOf q (linkParentsOf q t)).length + 1 ≤ a.maxAnc
 
-instance (a : Args) (r : RArgs) (q : Pool) (t : DTx) : Decidable (Admissible a r q t) := by
+instance (a : Args) (live : List Nat) (q : Pool) (t : CTx) : Decidable (Admissible a live q t) := by
   unfold Admissible; infer_instance
 
-theorem readdOne_admit {a : Args} {r : RArgs} {q : Pool} {t : DTx} (h : Admissible a r q t) :
-    readdOne a r q t = linkChildren q t ++ [entryOf a q t] := by
+theorem readdOne_admit {a : Args} {live : List Nat} {q : Pool} {t : CTx} (h : Admissible a live q t) :
+    readdOne a live q t = q ++ [entryOf a t] := by
   obtain ⟨h1, h2, h3, h4⟩ := h
   unfold readdOne
   simp [h1, h2, h3]
   omega
 
-theorem readdOne_reject {a : Args} {r : RArgs} {q : Pool} {t : DTx} (h : ¬ Admissible a r q t) :
-    readdOne a r q t = q := by
+theorem readdOne_reject {a : Args} {live : List Nat} {q : Pool} {t : CTx} (h : ¬ Admissible a live q t) :
+    readdOne a live q t = q := by
   unfold readdOne
-  by_cases h1 : (resolves q a r t && t.ok) = true
+  by_cases h1 : (resolves q a live t && t.ok) = true
   · by_cases h3 : hasId q t.id = true
     · simp [h1, h3]
     · by_cases h4 : (ancestorsOf q (linkParentsOf q t)).length + 1 > a.maxAnc
@@ -46,87 +102,57 @@ theorem readdOne_reject {a : Args} {r : RArgs} {q : Pool} {t : DTx} (h : ¬ Admi
         exact ⟨h1.1, h1.2, by simpa using h3, by omega⟩
   · simp [h1]
 
-theorem mem_linkChildren {q : Pool} {t : DTx} {e' : PEnt} (h : e' ∈ linkChildren q t) : ∃ e ∈ q, SameCore e e' := by
-  unfold linkChildren at h
-  obtain ⟨e, he, rfl⟩ := List.mem_map.mp h
-  refine ⟨e, he, ?_⟩
-  split
-  · exact ⟨rfl, rfl, rfl, rfl, rfl, rfl⟩
-  · exact SameCore.rfl' e
+theorem hasId_iff {q : Pool} {id : Nat} : hasId q id = true ↔ ∃ e ∈ q, e.id = id := by
+  unfold hasId; simp [List.any_eq_true]
 
-theorem linkChildren_keeps {q : Pool} (t : DTx) {e : PEnt} (h : e ∈ q) : ∃ e' ∈ linkChildren q t, SameCore e e' := by
-  unfold linkChildren
-  refine ⟨_, List.mem_map_of_mem (f := fun x => if x.spent.any t.outs.contains || x.deps.any t.outs.contains
-    then { x with parents := insertNew x.parents t.id } else x) h, ?_⟩
-  split
-  · exact ⟨rfl, rfl, rfl, rfl, rfl, rfl⟩
-  · exact SameCore.rfl' e
-
-theorem fromTx_entryOf (a : Args) (q : Pool) (t : DTx) : FromTx a t (entryOf a q t) := ⟨rfl, rfl, rfl, rfl, rfl, rfl⟩
-
-/-- one round only adds: every entry is still there (possibly with one more link parent) -/
-theorem readdOne_keeps (a : Args) (r : RArgs) (q : Pool) (t : DTx) {e : PEnt} (h : e ∈ q) :
-    ∃ e' ∈ readdOne a r q t, SameCore e e' := by
-  by_cases hA : Admissible a r q t
-  · rw [readdOne_admit hA]
-    obtain ⟨e', he', hs⟩ := linkChildren_keeps t h
-    exact ⟨e', List.mem_append.mpr (Or.inl he'), hs⟩
-  · rw [readdOne_reject hA]; exact ⟨e, h, SameCore.rfl' e⟩
+/-- one round only adds -/
+theorem readdOne_keeps (a : Args) (live : List Nat) (q : Pool) (t : CTx) {e : PEnt} (h : e ∈ q) :
+    e ∈ readdOne a live q t := by
+  by_cases hA : Admissible a live q t
+  · rw [readdOne_admit hA]; exact List.mem_append.mpr (Or.inl h)
+  · rw [readdOne_reject hA]; exact h
 
 /-- one round adds nothing but the transaction itself, and only if it was admissible -/
-theorem readdOne_prov (a : Args) (r : RArgs) (q : Pool) (t : DTx) {e' : PEnt} (h : e' ∈ readdOne a r q t) :
-    (∃ e ∈ q, SameCore e e') ∨ (Admissible a r q t ∧ FromTx a t e') := by
-  by_cases hA : Admissible a r q t
+theorem readdOne_prov (a : Args) (live : List Nat) (q : Pool) (t : CTx) {e' : PEnt} (h : e' ∈ readdOne a live q t) :
+    e' ∈ q ∨ (Admissible a live q t ∧ e' = entryOf a t) := by
+  by_cases hA : Admissible a live q t
   · rw [readdOne_admit hA] at h
     rcases List.mem_append.mp h with h | h
-    · exact Or.inl (mem_linkChildren h)
-    · rw [List.mem_singleton] at h; subst h
-      exact Or.inr ⟨hA, fromTx_entryOf a q t⟩
-  · rw [readdOne_reject hA] at h; exact Or.inl ⟨e', h, SameCore.rfl' e'⟩
+    · exact Or.inl h
+    · rw [List.mem_singleton] at h; exact Or.inr ⟨hA, h⟩
+  · rw [readdOne_reject hA] at h; exact Or.inl h
 
-theorem readd_append (a : Args) (r : RArgs) (q : Pool) (l1 l2 : List DTx) :
-    readd a r q (l1 ++ l2) = readd a r (readd a r q l1) l2 := by
+theorem readd_append (a : Args) (live : List Nat) (q : Pool) (l1 l2 : List CTx) :
+    readd a live q (l1 ++ l2) = readd a live (readd a live q l1) l2 := by
   unfold readd; rw [List.foldl_append]
 
-theorem readd_cons (a : Args) (r : RArgs) (q : Pool) (t : DTx) (l : List DTx) :
-    readd a r q (t :: l) = readd a r (readdOne a r q t) l := rfl
+theorem readd_cons (a : Args) (live : List Nat) (q : Pool) (t : CTx) (l : List CTx) :
+    readd a live q (t :: l) = readd a live (readdOne a live q t) l := rfl
 
-theorem readd_keeps (a : Args) (r : RArgs) (l : List DTx) (q : Pool) {e : PEnt} (h : e ∈ q) :
-    ∃ e' ∈ readd a r q l, SameCore e e' := by
-  induction l generalizing q e with
-  | nil => exact ⟨e, h, SameCore.rfl' e⟩
-  | cons t l ih =>
-    obtain ⟨e1, h1, s1⟩ := readdOne_keeps a r q t h
-    obtain ⟨e2, h2, s2⟩ := ih (readdOne a r q t) h1
-    exact ⟨e2, h2, s1.trans s2⟩
+theorem readd_keeps (a : Args) (live : List Nat) (l : List CTx) (q : Pool) {e : PEnt} (h : e ∈ q) :
+    e ∈ readd a live q l := by
+  induction l generalizing q with
+  | nil => exact h
+  | cons t l ih => exact ih _ (readdOne_keeps a live q t h)
 
 /-- everything in the pool after the loop is an old entry or a detached transaction that was admissible at its turn -/
-theorem readd_prov (a : Args) (r : RArgs) (l : List DTx) (q : Pool) {e' : PEnt} (h : e' ∈ readd a r q l) :
-    (∃ e ∈ q, SameCore e e') ∨
-    (∃ l1 t l2, l = l1 ++ t :: l2 ∧ Admissible a r (readd a r q l1) t ∧ FromTx a t e') := by
+theorem readd_prov (a : Args) (live : List Nat) (l : List CTx) (q : Pool) {e' : PEnt} (h : e' ∈ readd a live q l) :
+    e' ∈ q ∨ (∃ l1 t l2, l = l1 ++ t :: l2 ∧ Admissible a live (readd a live q l1) t ∧ e' = entryOf a t) := by
   induction l generalizing q with
-  | nil => exact Or.inl ⟨e', h, SameCore.rfl' e'⟩
+  | nil => exact Or.inl h
   | cons t l ih =>
     rw [readd_cons] at h
-    rcases ih (readdOne a r q t) h with ⟨e1, h1, s1⟩ | ⟨l1, t', l2, hl, hA, hF⟩
-    · rcases readdOne_prov a r q t h1 with ⟨e0, h0, s0⟩ | ⟨hA, hF⟩
-      · exact Or.inl ⟨e0, h0, s0.trans s1⟩
-      · refine Or.inr ⟨[], t, l, rfl, hA, ?_⟩
-        obtain ⟨f1, f2, f3, f4, f5, f6⟩ := hF
-        obtain ⟨g1, g2, g3, g4, g5, g6⟩ := s1
-        exact ⟨g1.trans f1, g2.trans f2, g3.trans f3, g4.trans f4, g5.trans f5, g6.trans f6⟩
+    rcases ih (readdOne a live q t) h with h1 | ⟨l1, t', l2, hl, hA, hF⟩
+    · rcases readdOne_prov a live q t h1 with h0 | ⟨hA, hF⟩
+      · exact Or.inl h0
+      · exact Or.inr ⟨[], t, l, rfl, hA, hF⟩
     · exact Or.inr ⟨t :: l1, t', l2, by rw [hl]; rfl, hA, hF⟩
 
 /-- a transaction that is admissible when its turn comes is pooled at the end, whatever happened to the others -/
-theorem readd_admissible_in_turn (a : Args) (r : RArgs) (q : Pool) (l1 : List DTx) (t : DTx) (l2 : List DTx)
-    (hA : Admissible a r (readd a r q l1) t) : ∃ e ∈ readd a r q (l1 ++ t :: l2), FromTx a t e := by
+theorem readd_admissible_in_turn (a : Args) (live : List Nat) (q : Pool) (l1 : List CTx) (t : CTx) (l2 : List CTx)
+    (hA : Admissible a live (readd a live q l1) t) : entryOf a t ∈ readd a live q (l1 ++ t :: l2) := by
   rw [readd_append, readd_cons, readdOne_admit hA]
-  have h0 : entryOf a (readd a r q l1) t ∈ linkChildren (readd a r q l1) t ++ [entryOf a (readd a r q l1) t] :=
-    List.mem_append.mpr (Or.inr (List.mem_singleton.mpr rfl))
-  obtain ⟨e', he', s⟩ := readd_keeps a r l2 _ h0
-  obtain ⟨f1, f2, f3, f4, f5, f6⟩ := fromTx_entryOf a (readd a r q l1) t
-  obtain ⟨g1, g2, g3, g4, g5, g6⟩ := s
-  exact ⟨e', he', g1.trans f1, g2.trans f2, g3.trans f3, g4.trans f4, g5.trans f5, g6.trans f6⟩
+  exact readd_keeps a live l2 _ (List.mem_append.mpr (Or.inr (List.mem_singleton.mpr rfl)))
 
 /-! ### resolution facts -/
 
@@ -138,8 +164,8 @@ theorem spentInPool_false {q : Pool} {o : Nat} (h : ∀ e ∈ q, o ∉ e.spent) 
 theorem madeInPool_iff {q : Pool} {o : Nat} : madeInPool q o = true ↔ ∃ x ∈ q, o ∈ x.outs := by
   unfold madeInPool; simp [List.any_eq_true]
 
-theorem resolves_cells {q : Pool} {a : Args} {r : RArgs} {t : DTx} (h : resolves q a r t = true) :
-    ∀ o ∈ t.spent ++ t.deps, cellLive q r o = true := by
+theorem resolves_cells {q : Pool} {a : Args} {live : List Nat} {t : CTx} (h : resolves q a live t = true) :
+    ∀ o ∈ t.spent ++ t.deps, cellLive q live o = true := by
   unfold resolves at h
   simp only [Bool.and_eq_true, List.all_eq_true] at h
   intro o ho
@@ -147,63 +173,68 @@ theorem resolves_cells {q : Pool} {a : Args} {r : RArgs} {t : DTx} (h : resolves
   · exact h.1.1 o h1
   · exact h.1.2 o h1
 
-theorem cellLive_cases {q : Pool} {r : RArgs} {o : Nat} (h : cellLive q r o = true) :
-    spentInPool q o = false ∧ ((∃ x ∈ q, o ∈ x.outs) ∨ o ∈ r.live) := by
+theorem resolves_hdeps {q : Pool} {a : Args} {live : List Nat} {t : CTx} (h : resolves q a live t = true) :
+    ∀ x ∈ t.hdeps, x ∉ a.detachedHeaders := by
+  unfold resolves at h
+  simp only [Bool.and_eq_true, List.all_eq_true] at h
+  intro x hx
+  simpa using h.2 x hx
+
+theorem cellLive_cases {q : Pool} {live : List Nat} {o : Nat} (h : cellLive q live o = true) :
+    spentInPool q o = false ∧ ((∃ x ∈ q, o ∈ x.outs) ∨ o ∈ live) := by
   unfold cellLive at h
   simp only [Bool.and_eq_true, Bool.not_eq_true', Bool.or_eq_true, List.contains_iff_mem] at h
   exact ⟨h.1, h.2.imp madeInPool_iff.mp id⟩
 
-theorem calcRelation_nil (g : Nat → List Nat) (ns : List Nat) : calcRelation g ns [] = [] := by
-  unfold calcRelation
-  show Pool.saturate g (ns.length + 0 + 1) (dedup []) = []
-  simp [Pool.saturate, Pool.expand, Pool.union, dedup]
-
 /-! ### "every input / cell dep is live on the chain or created by a pooled entry" is kept by the re-adds -/
 
-theorem resolvable_readdOne {a : Args} {r : RArgs} {q : Pool} (t : DTx) (hr : Resolvable (· ∈ r.live) q) :
-    Resolvable (· ∈ r.live) (readdOne a r q t) := by
-  by_cases hA : Admissible a r q t
-  · have hmade : ∀ o, (∃ x ∈ q, o ∈ x.outs) → ∃ x ∈ readdOne a r q t, o ∈ x.outs := by
-      rintro o ⟨x, hx, hox⟩
-      obtain ⟨x', hx', s⟩ := readdOne_keeps a r q t hx
-      exact ⟨x', hx', by rw [s.2.2.2.2.2]; exact hox⟩
+theorem resolvable_readdOne {P : Nat → Prop} {a : Args} {live : List Nat} {q : Pool} (t : CTx)
+    (hP : ∀ o ∈ live, P o) (hr : Resolvable P q) : Resolvable P (readdOne a live q t) := by
+  by_cases hA : Admissible a live q t
+  · rw [readdOne_admit hA]
     intro e' he' o ho
-    rcases readdOne_prov a r q t he' with ⟨e, he, s⟩ | ⟨_, hF⟩
-    · rw [s.2.2.1, s.2.2.2.1] at ho
-      exact (hr e he o ho).imp id (hmade o)
-    · rw [hF.2.2.1, hF.2.2.2.1] at ho
+    rcases List.mem_append.mp he' with he | he
+    · rcases hr e' he o ho with h | ⟨x, hx, hox⟩
+      · exact Or.inl h
+      · exact Or.inr ⟨x, List.mem_append.mpr (Or.inl hx), hox⟩
+    · rw [List.mem_singleton] at he; subst he
       obtain ⟨_, h2⟩ := cellLive_cases (resolves_cells hA.1 o ho)
-      rcases h2 with h2 | h2
-      · exact Or.inr (hmade o h2)
-      · exact Or.inl h2
+      rcases h2 with ⟨x, hx, hox⟩ | h2
+      · exact Or.inr ⟨x, List.mem_append.mpr (Or.inl hx), hox⟩
+      · exact Or.inl (hP o h2)
   · rw [readdOne_reject hA]; exact hr
 
-theorem resolvable_readd (a : Args) (r : RArgs) (l : List DTx) (q : Pool) (hr : Resolvable (· ∈ r.live) q) :
-    Resolvable (· ∈ r.live) (readd a r q l) := by
+theorem resolvable_readd {P : Nat → Prop} (a : Args) (live : List Nat) (l : List CTx) (q : Pool)
+    (hP : ∀ o ∈ live, P o) (hr : Resolvable P q) : Resolvable P (readd a live q l) := by
   induction l generalizing q with
   | nil => exact hr
-  | cons t l ih => exact ih _ (resolvable_readdOne t hr)
+  | cons t l ih => exact ih _ (resolvable_readdOne t hP hr)
 
 /-! ### a failure of an earlier detached transaction does not lose a later independent one -/
 
 /-- `t` shares nothing with the entry / transaction that has these fields: another id, none of `t`'s
     inputs is spent, created or referenced by it, none of `t`'s cell deps is spent or created by it -/
-def Apart (t : DTx) (id : Nat) (spent deps outs : List Nat) : Prop :=
+def Apart (t : CTx) (id : Nat) (spent deps outs : List Nat) : Prop :=
   id ≠ t.id ∧ (∀ o ∈ t.spent, o ∉ spent ∧ o ∉ outs ∧ o ∉ deps) ∧ (∀ o ∈ t.deps, o ∉ spent ∧ o ∉ outs)
 
-theorem apart_readd {a : Args} {r : RArgs} {q : Pool} {l1 : List DTx} {t : DTx}
+theorem apart_readd {a : Args} {live : List Nat} {q : Pool} {l1 : List CTx} {t : CTx}
     (hq : ∀ e ∈ q, Apart t e.id e.spent e.deps e.outs) (hl : ∀ d ∈ l1, Apart t d.id d.spent d.deps d.outs) :
-    ∀ e ∈ readd a r q l1, Apart t e.id e.spent e.deps e.outs := by
+    ∀ e ∈ readd a live q l1, Apart t e.id e.spent e.deps e.outs := by
   intro e' he'
-  rcases readd_prov a r l1 q he' with ⟨e, he, s⟩ | ⟨la, d, lb, hl1, _, hF⟩
-  · rw [s.1, s.2.2.1, s.2.2.2.1, s.2.2.2.2.2]; exact hq e he
-  · rw [hF.1, hF.2.2.1, hF.2.2.2.1, hF.2.2.2.2.2]
+  rcases readd_prov a live l1 q he' with he | ⟨la, d, lb, hl1, _, hF⟩
+  · exact hq e' he
+  · subst hF
     exact hl d (by rw [hl1]; exact List.mem_append.mpr (Or.inr (List.mem_cons_self ..)))
 
-theorem admissible_of_apart {a : Args} {r : RArgs} {q : Pool} {t : DTx}
+theorem calcRelation_nil (g : Nat → List Nat) (ns : List Nat) : Pool.calcRelation g ns [] = [] := by
+  unfold Pool.calcRelation
+  show Pool.saturate g (ns.length + 0 + 1) (Pool.dedup []) = []
+  simp [Pool.saturate, Pool.expand, Pool.union, Pool.dedup]
+
+theorem admissible_of_apart {a : Args} {live : List Nat} {q : Pool} {t : CTx}
     (hq : ∀ e ∈ q, Apart t e.id e.spent e.deps e.outs)
-    (hlive : ∀ o ∈ t.spent ++ t.deps, o ∈ r.live) (hh : ∀ h ∈ t.hdeps, h ∉ a.detachedHeaders)
-    (hok : t.ok = true) (hmax : 1 ≤ a.maxAnc) : Admissible a r q t := by
+    (hlive : ∀ o ∈ t.spent ++ t.deps, o ∈ live) (hh : ∀ h ∈ t.hdeps, h ∉ a.detachedHeaders)
+    (hok : t.ok = true) (hmax : 1 ≤ a.maxAnc) : Admissible a live q t := by
   have hsp : ∀ o ∈ t.spent ++ t.deps, spentInPool q o = false := by
     intro o ho
     apply spentInPool_false
@@ -211,7 +242,7 @@ theorem admissible_of_apart {a : Args} {r : RArgs} {q : Pool} {t : DTx}
     rcases List.mem_append.mp ho with h1 | h1
     · exact ((hq e he).2.1 o h1).1
     · exact ((hq e he).2.2 o h1).1
-  have hcell : ∀ o ∈ t.spent ++ t.deps, cellLive q r o = true := by
+  have hcell : ∀ o ∈ t.spent ++ t.deps, cellLive q live o = true := by
     intro o ho
     unfold cellLive
     simp [hsp o ho, hlive o ho]
@@ -242,8 +273,8 @@ theorem admissible_of_apart {a : Args} {r : RArgs} {q : Pool} {t : DTx}
 
 /-! ### a transaction that conflicts with the new chain is not re-admitted -/
 
-theorem not_admissible_of_dead {a : Args} {r : RArgs} {q : Pool} {t : DTx} {o : Nat} (ho : o ∈ t.spent ++ t.deps)
-    (hdead : o ∉ r.live) (hq : ∀ e ∈ q, o ∉ e.outs) : ¬ Admissible a r q t := by
+theorem not_admissible_of_dead {a : Args} {live : List Nat} {q : Pool} {t : CTx} {o : Nat} (ho : o ∈ t.spent ++ t.deps)
+    (hdead : o ∉ live) (hq : ∀ e ∈ q, o ∉ e.outs) : ¬ Admissible a live q t := by
   intro hA
   obtain ⟨_, h2⟩ := cellLive_cases (resolves_cells hA.1 o ho)
   rcases h2 with ⟨x, hx, hox⟩ | h2
